@@ -68,6 +68,8 @@ fn alpha(tier: &str) -> Alpha {
 }
 
 pub struct Plan {
+    /// fixed programs instead of the enumeration (depth/alpha unused then)
+    pub fixed: Option<Vec<Vec<&'static str>>>,
     pub name: &'static str,
     pub cfg: Cfg,
     pub prefix: &'static str,
@@ -84,14 +86,14 @@ fn plans(tier: &str) -> Vec<Plan> {
     tx_alpha.reopen = true;
     tx_alpha.max_reopen = 1;
     let mut v = vec![
-        Plan { name: "main", cfg: d.clone(), prefix: "", alpha: alpha(tier), depth: if q { 3 } else { 4 } },
-        Plan { name: "two-sealed-journals", cfg: d.clone(), prefix: "two_sealed_journals", alpha: alpha(tier), depth: if q { 1 } else { 2 } },
-        Plan { name: "tx-single-writer", cfg: Cfg { kind: DbKind::SingleWriter, ..d.clone() }, prefix: "", alpha: tx_alpha.clone(), depth: if q { 2 } else { 3 } },
-        Plan { name: "tx-optimistic", cfg: Cfg { kind: DbKind::Optimistic, ..d.clone() }, prefix: "", alpha: tx_alpha.clone(), depth: if q { 2 } else { 3 } },
+        Plan { fixed: None, name: "main", cfg: d.clone(), prefix: "", alpha: alpha(tier), depth: if q { 3 } else { 4 } },
+        Plan { fixed: None, name: "two-sealed-journals", cfg: d.clone(), prefix: "two_sealed_journals", alpha: alpha(tier), depth: if q { 1 } else { 2 } },
+        Plan { fixed: None, name: "tx-single-writer", cfg: Cfg { kind: DbKind::SingleWriter, ..d.clone() }, prefix: "", alpha: tx_alpha.clone(), depth: if q { 2 } else { 3 } },
+        Plan { fixed: None, name: "tx-optimistic", cfg: Cfg { kind: DbKind::Optimistic, ..d.clone() }, prefix: "", alpha: tx_alpha.clone(), depth: if q { 2 } else { 3 } },
     ];
     if !q {
-        v.push(Plan { name: "compaction-pending", cfg: Cfg { strat: Strat::LeveledL2, ..d.clone() }, prefix: "l6_l0_mem", alpha: alpha(tier), depth: 2 });
-        v.push(Plan { name: "blob", cfg: Cfg { blob: true, ..d.clone() }, prefix: "blob_overwritten", alpha: alpha(tier), depth: 2 });
+        v.push(Plan { fixed: None, name: "compaction-pending", cfg: Cfg { strat: Strat::LeveledL2, ..d.clone() }, prefix: "l6_l0_mem", alpha: alpha(tier), depth: 2 });
+        v.push(Plan { fixed: None, name: "blob", cfg: Cfg { blob: true, ..d.clone() }, prefix: "blob_overwritten", alpha: alpha(tier), depth: 2 });
     }
     v
 }
@@ -120,6 +122,17 @@ pub fn leaves(prop: &SeqProp, depth: usize) -> Vec<Vec<Op>> {
     out
 }
 
+#[derive(Clone, Copy, PartialEq, Debug)]
+pub enum CrashMode {
+    /// process crash: the OS view of the files survives
+    Crash,
+    /// power loss: only data synced with fsync/fdatasync survives (directory operations are kept)
+    PowerLoss,
+}
+
+/// power-loss images whose content is no exact prefix state although every synced write survived (counted, not judged)
+pub static NON_PREFIX_POWERLOSS: std::sync::atomic::AtomicU64 = std::sync::atomic::AtomicU64::new(0);
+
 pub struct CrashStats {
     pub programs: u64,
     pub images: u64,
@@ -134,13 +147,20 @@ pub struct CrashStats {
 
 /// Crash exploration of the plans' programs; folds counts into `o` under `key_prefix` and appends findings.
 pub fn crash_explore(o: &mut Outcome, plans: &[Plan], deadline: Instant, q: bool, conformance_programs: usize, key_prefix: &str) {
+    crash_explore_mode(o, plans, deadline, q, conformance_programs, key_prefix, CrashMode::Crash)
+}
+
+pub fn crash_explore_mode(o: &mut Outcome, plans: &[Plan], deadline: Instant, q: bool, conformance_programs: usize, key_prefix: &str, mode: CrashMode) {
     let mut jobs: Vec<(usize, Vec<Op>)> = vec![];
     let mut props = vec![];
     for (pi, pl) in plans.iter().enumerate() {
         let mut prop = SeqProp::new("C02", pl.cfg.clone(), pl.alpha.clone());
         prop.c12_ops = false;
         prop.prefix = prefix(pl.prefix);
-        let ls = leaves(&prop, pl.depth);
+        let ls = match &pl.fixed {
+            Some(f) => f.iter().map(|p| p.iter().map(|s| Op::parse(s).expect("fixed op")).collect()).collect(),
+            None => leaves(&prop, pl.depth),
+        };
         for l in ls {
             jobs.push((pi, l));
         }
@@ -168,7 +188,23 @@ pub fn crash_explore(o: &mut Outcome, plans: &[Plan], deadline: Instant, q: bool
                 Err(_) => return, // sequential failure: E1's business
             }
         };
-        let run = run_driver(&pl.cfg, &full, Mode::Image { powerloss: false }, &[]);
+        let run = run_driver(&pl.cfg, &full, Mode::Image { powerloss: mode == CrashMode::PowerLoss }, &[]);
+        // lower bound of the recovered prefix for a crash before call n
+        let lower = |n: usize| -> usize {
+            let fences = if mode == CrashMode::PowerLoss { &hist.sync_fence } else { &hist.buffer_fence };
+            let mut lo = 0;
+            for (i, c, ok) in &run.acks {
+                if *ok && *c <= n && fences.get(*i).copied().unwrap_or(false) {
+                    lo = lo.max(i + 1);
+                }
+            }
+            if let Some(d) = run.dropped_counter {
+                if d <= n {
+                    lo = full.len();
+                }
+            }
+            lo
+        };
         if run.exit_code != Some(0) || run.acks.len() != full.len() {
             findings.lock().unwrap().push(Finding {
                 sig: "driver.failed".into(),
@@ -192,9 +228,9 @@ pub fn crash_explore(o: &mut Outcome, plans: &[Plan], deadline: Instant, q: bool
             let acked = run.acked_before(n);
             let inflight = full.get(acked).map(|o| o.to_string().split_whitespace().next().unwrap_or("").to_string()).unwrap_or_else(|| "drop".into());
             findings.lock().unwrap().push(Finding {
-                sig: format!("{clause}|inflight={inflight}|at={call}{}", if torn.is_some() { "+torn" } else { "" }),
+                sig: format!("{clause}|inflight={inflight}|at={call}{}{}", if torn.is_some() { "+torn" } else { "" }, if mode == CrashMode::PowerLoss { "|powerloss" } else { "" }),
                 engine: "E2-crashcheck".into(),
-                variant: json!({"plan": pl.name, "cfg": pl.cfg.to_spec(), "crash_before_call": n, "call": call, "torn_bytes": torn, "prefix_len": plen, "acked_ops": acked}),
+                variant: json!({"plan": pl.name, "cfg": pl.cfg.to_spec(), "crash_before_call": n, "call": call, "torn_bytes": torn, "prefix_len": plen, "acked_ops": acked, "mode": format!("{mode:?}"), "must_survive_ops": lower(n)}),
                 program: full.iter().map(|o| o.to_string()).collect(),
                 clause,
                 detail,
@@ -212,14 +248,48 @@ pub fn crash_explore(o: &mut Outcome, plans: &[Plan], deadline: Instant, q: bool
                     if let Some(d) = inconsistent {
                         report("recovered.inconsistent_reads".into(), d, n, call, torn);
                     } else {
-                        match matching_prefix(&hist, &content, acked, acked + 1) {
+                        let lo = lower(n).min(acked);
+                        // C09 (power loss) promises survival of what was synced, not atomicity of what was not:
+                        // per key, the recovered value must be the one after SOME prefix p with lo <= p <= acked+1
+                        let per_key_ok = mode == CrashMode::PowerLoss && {
+                            let hi = (acked + 1).min(hist.states.len() - 1);
+                            let mut ok = true;
+                            // keyspace set: must be the set of some state in range
+                            ok &= (lo..=hi).any(|p| hist.states[p].keys().eq(content.keys()));
+                            let mut all_keys: BTreeSet<(String, Vec<u8>)> = BTreeSet::new();
+                            for p in lo..=hi {
+                                for (ks, m) in &hist.states[p] {
+                                    for k in m.keys() {
+                                        all_keys.insert((ks.clone(), k.clone()));
+                                    }
+                                }
+                            }
+                            for (ks, m) in &content {
+                                for k in m.keys() {
+                                    all_keys.insert((ks.clone(), k.clone()));
+                                }
+                            }
+                            for (ks, k) in all_keys {
+                                let got = content.get(&ks).and_then(|m| m.get(&k));
+                                if !(lo..=hi).any(|p| hist.states[p].get(&ks).and_then(|m| m.get(&k)) == got) {
+                                    ok = false;
+                                }
+                            }
+                            ok
+                        };
+                        let exact = matching_prefix(&hist, &content, lo, acked + 1);
+                        let verdict = if exact.is_some() { exact } else if per_key_ok { Some(lo) } else { None };
+                        if exact.is_none() && per_key_ok {
+                            NON_PREFIX_POWERLOSS.fetch_add(1, std::sync::atomic::Ordering::Relaxed);
+                        }
+                        match verdict {
                             Some(p) => {
-                                if p == acked { *old += 1 } else { *new += 1 }
+                                if p <= acked { *old += 1 } else { *new += 1 }
                                 use std::hash::{Hash, Hasher};
                                 let mut h = std::collections::hash_map::DefaultHasher::new();
                                 show_content(&content).hash(&mut h);
                                 local_out.insert(h.finish());
-                                if torn.is_none() {
+                                if torn.is_none() && exact.is_some() {
                                     if let Err((c, d)) = suffix_check(&dir, &pl.cfg, &content) {
                                         report(c, d, n, call, torn);
                                     }
@@ -228,13 +298,13 @@ pub fn crash_explore(o: &mut Outcome, plans: &[Plan], deadline: Instant, q: bool
                             None => {
                                 let any = matching_prefix(&hist, &content, 0, hist.states.len() - 1);
                                 let clause = match any {
-                                    Some(p) if p < acked => "recovered.acknowledged_write_missing",
+                                    Some(p) if p < lo => if mode == CrashMode::PowerLoss { "recovered.synced_write_missing" } else { "recovered.acknowledged_write_missing" },
                                     Some(_) => "recovered.future_state",
                                     None => "recovered.not_a_prefix",
                                 };
                                 report(
                                     clause.into(),
-                                    format!("{} ops acknowledged; expected {} or {} ; recovered {}", acked, show_content(&hist.states[acked]), hist.states.get(acked + 1).map(show_content).unwrap_or_default(), show_content(&content)),
+                                    format!("{} ops acknowledged, the first {} must survive; expected a state between {} and {} ; recovered {}", acked, lo, show_content(&hist.states[lo]), hist.states.get(acked + 1).map(show_content).unwrap_or_else(|| show_content(&hist.states[acked])), show_content(&content)),
                                     n, call, torn,
                                 );
                             }
@@ -251,7 +321,14 @@ pub fn crash_explore(o: &mut Outcome, plans: &[Plan], deadline: Instant, q: bool
                 st_pre += 1;
                 continue;
             }
-            if ev.img >= 0 && seen_img.insert(ev.img) && seen_hash.insert((tree_hash(&run.image_dir(ev.img)), run.acked_before(ev.n))) {
+            if mode == CrashMode::PowerLoss {
+                if ev.pl >= 0 && seen_img.insert(ev.pl) && seen_hash.insert((tree_hash(&run.pl_dir(ev.pl)), run.acked_before(ev.n) * 1000 + lower(ev.n))) {
+                    st_images += 1;
+                    check_image(&run.pl_dir(ev.pl), ev.n, &ev.call, None, &mut local_out, &mut old, &mut new);
+                }
+                continue;
+            }
+            if ev.img >= 0 && seen_img.insert(ev.img) && seen_hash.insert((tree_hash(&run.image_dir(ev.img)), run.acked_before(ev.n) * 1000 + lower(ev.n))) {
                 st_images += 1;
                 check_image(&run.image_dir(ev.img), ev.n, &ev.call, None, &mut local_out, &mut old, &mut new);
             }
@@ -282,7 +359,7 @@ pub fn crash_explore(o: &mut Outcome, plans: &[Plan], deadline: Instant, q: bool
         // conformance of the image mechanism: a real kill before call n must leave the same tree
         let mut kc = 0;
         let mut km = 0;
-        if ji < conformance_programs {
+        if ji < conformance_programs && mode == CrashMode::Crash {
             let step = if q { 3 } else { 1 };
             for ev in run.events.iter().filter(|e| e.n >= run.init_counter && e.n % step == 0) {
                 let killed = run_driver(&pl.cfg, &full, Mode::Crash(ev.n), &[]);
@@ -344,6 +421,9 @@ pub fn crash_explore(o: &mut Outcome, plans: &[Plan], deadline: Instant, q: bool
     o.cov(&format!("{kp}image_vs_kill_checks"), json!(s.kill_checks));
     o.cov(&format!("{kp}image_vs_kill_mismatches"), json!(s.kill_mismatch));
     o.cov(&format!("{kp}distinct_recovered_states"), json!(outcomes.lock().unwrap().len()));
+    if mode == CrashMode::PowerLoss {
+        o.cov(&format!("{kp}images_not_an_exact_prefix_but_every_synced_write_survived"), json!(NON_PREFIX_POWERLOSS.swap(0, std::sync::atomic::Ordering::Relaxed)));
+    }
     o.cov(&format!("{kp}plans"), json!(plans.iter().map(|p| json!({"name": p.name, "cfg": p.cfg.name(), "prefix": p.prefix, "depth": p.depth})).collect::<Vec<_>>()));
     if timed_out {
         o.cov("exhaustive", json!(false));
@@ -357,7 +437,7 @@ pub fn crash_explore(o: &mut Outcome, plans: &[Plan], deadline: Instant, q: bool
     if timed_out {
         o.machinery_errors.push(format!("time cap hit after {done}/{} crash programs", jobs.len()));
     }
-    if s.inflight_new == 0 || s.inflight_old == 0 {
+    if mode == CrashMode::Crash && plans.iter().any(|p| !p.cfg.manual_persist) && (s.inflight_new == 0 || s.inflight_old == 0) {
         o.machinery_errors.push("reachability witness missing: never saw both outcomes of an in-flight operation".into());
     }
     let mut f = findings.into_inner().unwrap();
